@@ -2,8 +2,10 @@ package mon
 
 import (
 	"fmt"
+	"os"
 	"reflect"
 	"sort"
+	"strings"
 	"unsafe"
 )
 
@@ -71,6 +73,58 @@ func Walk(v reflect.Value, path string, out *[]Piece) {
 			}
 		}
 	}
+}
+
+// static address ranges of the executable image (text, rodata, data, bss):
+// string constants and other static data live there and are legitimately shared.
+var staticRanges [][2]uintptr
+
+func init() {
+	exe, err := os.Executable()
+	if err != nil {
+		return
+	}
+	b, err := os.ReadFile("/proc/self/maps")
+	if err != nil {
+		return
+	}
+	for _, line := range strings.Split(string(b), "\n") {
+		f := strings.Fields(line)
+		if len(f) < 6 || f[5] != exe {
+			continue
+		}
+		var lo, hi uintptr
+		if _, err := fmt.Sscanf(f[0], "%x-%x", &lo, &hi); err == nil {
+			staticRanges = append(staticRanges, [2]uintptr{lo, hi})
+		}
+	}
+	// the bss follows the last file-backed mapping as an anonymous one; extend generously
+	if n := len(staticRanges); n > 0 {
+		staticRanges = append(staticRanges, [2]uintptr{staticRanges[n-1][1], staticRanges[n-1][1] + (64 << 20)})
+	}
+}
+
+// IsStatic reports whether p lies in the executable's static image rather than
+// in memory allocated at run time.
+func IsStatic(p Piece) bool {
+	for _, r := range staticRanges {
+		if p.Addr >= r[0] && p.Addr < r[1] {
+			return true
+		}
+	}
+	return false
+}
+
+// DropStatic removes pieces that live in static data (e.g. string constants
+// assigned by a default initialiser): the decoder did not create them.
+func DropStatic(ps []Piece) []Piece {
+	out := ps[:0:0]
+	for _, p := range ps {
+		if !IsStatic(p) {
+			out = append(out, p)
+		}
+	}
+	return out
 }
 
 // CheckAlign returns a description of the first misaligned piece, or "".
